@@ -177,3 +177,28 @@ impl Sampler for Dz {
     fn sample(&self) -> u32 { self.v as u32 }
     fn position(&self) -> usize { self.adds as usize }
 }
+
+/// a `&mut` wrapped return whose associated type carries a LIFETIME bound (its own generator path)
+#[cglue_trait]
+pub trait LtMut<'a> {
+    #[wrap_with_obj_mut(Leaf)]
+    type RetL: Leaf + 'a;
+    fn lt_leaf(&'a mut self) -> &'a mut Self::RetL;
+}
+impl<'a> LtMut<'a> for P {
+    type RetL = L;
+    fn lt_leaf(&mut self) -> &mut L {
+        &mut self.leaf
+    }
+}
+
+/// a payload larger than 1 KiB with a destructor
+pub struct BigPay {
+    pub pad: [u8; 1200],
+    pub pay: Pay,
+}
+impl LeafRO for BigPay {
+    fn ro_val(&self) -> u32 {
+        self.pay.val ^ self.pad[1199] as u32
+    }
+}
